@@ -121,8 +121,10 @@ enum Op {
     Oneway,
     Resend,
     DropIter,
+    /// drop the call object of an iteration whose final reply has not been consumed
+    Abandon,
 }
-const OPS: &[Op] = &[Op::Call, Op::More0, Op::More2, Op::More2ErrMid, Op::More2ErrLast, Op::Next, Op::Oneway, Op::Resend, Op::DropIter];
+const OPS: &[Op] = &[Op::Call, Op::More0, Op::More2, Op::More2ErrMid, Op::More2ErrLast, Op::Next, Op::Oneway, Op::Resend, Op::DropIter, Op::Abandon];
 
 fn seq_script(v: &Value) -> Vec<Value> {
     if v.get("oneway") == Some(&Value::Bool(true)) {
@@ -174,10 +176,21 @@ fn sequential_case(ctx: &Ctx, ops: &[Op], case_id: usize) {
     let mut busy_outcomes = 0;
     let mut trace: Vec<String> = Vec::new();
     let mut fail: Option<(String, String)> = None;
+    // an iteration was dropped with replies still owed to it: from then on the statement only
+    // fixes that no call may be handed a reply it did not request (refusing is fine, so is an
+    // implementation that drains); a call that succeeds must have put its request on the wire
+    let mut abandoned = false;
     for (i, op) in ops.iter().enumerate() {
         let token = format!("c{}o{}", case_id, i);
         let busy = iter.is_some();
         match op {
+            Op::Abandon => {
+                if let Some((mc, tok, _, idx, _)) = iter.take() {
+                    trace.push(format!("Abandon({} after {} items)", tok, idx));
+                    drop(mc);
+                    abandoned = true;
+                }
+            }
             Op::Call | Op::Oneway => {
                 let mut mc = MC::new(conn.clone(), "x.y.M", json!({ "token": token }));
                 let r = if *op == Op::Call { mc.call().map(Some) } else { mc.oneway().map(|_| None) };
@@ -185,6 +198,18 @@ fn sequential_case(ctx: &Ctx, ops: &[Op], case_id: usize) {
                     Ok(v) => format!("Ok({:?})", v),
                     Err(e) => kind_name(e),
                 }));
+                if abandoned && !busy {
+                    match r {
+                        Err(_) => busy_outcomes += 1,
+                        Ok(Some(v)) if v.get("token").and_then(|t| t.as_str()) != Some(&token) => {
+                            fail = Some(("c07:delivery:reply-delivered-to-other-call".into(), format!("op {} {:?} after an abandoned iteration was handed {} (its own token is {})", i, op, v, token)));
+                            break;
+                        }
+                        Ok(_) => expected_requests.push(token.clone()),
+                    }
+                    last = Some(mc);
+                    continue;
+                }
                 match (busy, r) {
                     (true, Err(e)) if matches!(e.kind(), ErrorKind::ConnectionBusy) => busy_outcomes += 1,
                     (true, other) => {
@@ -223,6 +248,10 @@ fn sequential_case(ctx: &Ctx, ops: &[Op], case_id: usize) {
                         expected_requests.push(token.clone());
                         iter = Some((mc, token.clone(), k, 0, err_at.clone()));
                     }
+                    (false, Err(_)) if abandoned => {
+                        busy_outcomes += 1;
+                        last = Some(mc);
+                    }
                     (false, Err(e)) => {
                         fail = Some(("c07:more-failed-on-free-connection".into(), format!("op {} {:?}: {}", i, op, kind_name(&e))));
                         break;
@@ -245,7 +274,8 @@ fn sequential_case(ctx: &Ctx, ops: &[Op], case_id: usize) {
                             last = Some(mc);
                         }
                     } else {
-                        fail = Some(("c07:delivery:iterator-item-wrong".into(), format!("op {} expected item {} of {} (error={}): {:?}", i, idx, tok, errs.contains(&idx), item.map(|r| r.map_err(|e| kind_name(&e))))));
+                        let sig = if abandoned { "c07:delivery:reply-delivered-to-other-call" } else { "c07:delivery:iterator-item-wrong" };
+                        fail = Some((sig.into(), format!("op {} expected item {} of {} (error={}): {:?}", i, idx, tok, errs.contains(&idx), item.map(|r| r.map_err(|e| kind_name(&e))))));
                         break;
                     }
                 }
@@ -460,9 +490,9 @@ pub fn threaded_round(ctx: &Ctx, nthreads: usize, ops_per_thread: usize, delay_u
 }
 
 pub fn main(ctx: &Ctx) -> i32 {
-    ctx.set_rule("(i) ~60 reply objects (success shapes, 4 standard errors x {parameter, extra member, no parameters, ill-typed, empty}, custom/near-miss names) each through call(); (ii) all sequences over {call, more(0), more(2), next, oneway, resend-on-used-object, drain} up to length 4 (quick) / 6 (thorough) against a scripted fake server with a request-conservation check; (iii) 2-8 threads sharing one connection, fake server delaying replies, per-call outcome must be own token or ConnectionBusy and requests on the wire = successful calls; distinct = reply object / op sequence / (threads, observed interleaving); non-trivial = >=2 ops / >=1 busy outcome or >=2 threads overlapping in logical time");
+    ctx.set_rule("(i) ~60 reply objects (success shapes, 4 standard errors x {parameter, extra member, no parameters, ill-typed, empty}, custom/near-miss names) each through call(); (ii) all sequences over {call, more(0), more(2), more with error frames, next, oneway, resend-on-used-object, drain, abandon} up to length 4 (quick) / 6 (thorough) against a scripted fake server with a request-conservation check; (iii) 2-8 threads sharing one connection, fake server delaying replies, per-call outcome must be own token or ConnectionBusy and requests on the wire = successful calls; distinct = reply object / op sequence / (threads, observed interleaving); non-trivial = >=2 ops / >=1 busy outcome or >=2 threads overlapping in logical time");
     ctx.assume("standard errors with missing or ill-typed parameters only need the right kind (their parameter default is not specified)");
-    ctx.assume("abandoning an iteration midway is not judged (statement silent); the Drain op consumes it instead");
+    ctx.assume("after an iteration is abandoned (call object dropped with replies still owed) the statement does not say whether the connection stays busy; judged there: no later call is handed a reply it did not request, and a refused call writes nothing");
     mapping(ctx);
     let maxlen = ctx.tier.pick(4, 6);
     let nw = workers();
